@@ -25,7 +25,7 @@ var c15Edges = map[string]bool{"PartitionPending→PartitionActive": true, "Part
 
 func runC15(c *core.Ctx) {
 	c.Rule("R1", "transition table literal = property's edges; membership test is pure", 2)
-	c.Rule("R2", "all partition state writes go through the table and the lock", 5)
+	c.Rule("R2", "all partition state writes go through the table and the lock", 7)
 	c.Rule("R3", "partition deletion guard evaluated inside the CAS callback", 2)
 	c.Rule("R4", "replication sets = healthy registered owners, at least one", 2)
 	c.Rule("R5", "own owner id only", 2)
